@@ -108,6 +108,8 @@ func forwardTaint(fn *ssa.Function, isSource func(v ssa.Value) bool) (tainted ma
 
 func init() {
 	register("C04",
+		Rule{ID: "C04.k", Explain: "the shared secret-key randomizer fits every key of the session (the rule of C14.k): honest proofs of a session with keys of different sizes verify in whatever order the credentials are listed.",
+			Run: func(P *Program, R *Report) { secretKeyRandomizerRule(P, R, "C04.k") }},
 		Rule{ID: "C04.j", Explain: "package-level mutable state in the proving and verifying call tree (the rule of C20.l with this property's entry points): honest proofs built or verified at the same time compute on private data only; a hash state, generator or scratch value hoisted to package level and used without a lock makes the exponent a proof is made for differ from the one the issuer signed.",
 			Run: func(P *Program, R *Report) {
 				packageStateRule(P, R, "C04.j", []string{"gabi.(*Credential).CreateDisclosureProof", "gabi.(*Credential).CreateDisclosureProofBuilder", kListVerify, kProofDVerify, "gabi.(ProofBuilderList).BuildProofList"}, 1)
